@@ -134,14 +134,14 @@ def check_set_join(df, call, measure, rec, decide, view=None, case=None, tag='')
         a, b = len(view.ltoks[i]), len(view.rtoks[j])
         if (i, j) in both_empty:
             stats['rows_both_empty'] += 1
-            if 'empty' in decide:
-                if not allow_empty:
-                    rec.violation('empty', '%sboth-empty pair (%r, %r) returned although it must not '
-                                  'be (allow_empty=%r, measure %s)' % (tag, lk, rk,
-                                  call.get('allow_empty', True), measure), case=case)
-                elif want_score and not (score == 1.0):
-                    rec.violation('empty', '%sadmitted empty-empty pair (%r, %r) has score %r, not 1.0'
-                                  % (tag, lk, rk, score), case=case)
+            if 'empty' in decide and not allow_empty:
+                rec.violation('empty', '%sboth-empty pair (%r, %r) returned although it must not '
+                              'be (allow_empty=%r, measure %s)' % (tag, lk, rk,
+                              call.get('allow_empty', True), measure), case=case)
+            elif ('empty' in decide or 'score' in decide) and allow_empty and want_score and \
+                    not (score == 1.0):
+                rec.violation('empty_score', '%sadmitted empty-empty pair (%r, %r) has score %r, not 1.0'
+                              % (tag, lk, rk, score), case=case)
             continue
         o = ov.get((i, j), 0)
         cls = model.classify(measure, op, t, a, b, o)
